@@ -158,7 +158,9 @@ func (w *world) monitor(rep *emit.Report, prop string, hid int, n *node) {
 			if i := strings.Index(st.ev.descr, "mutated:"); i >= 0 {
 				m := st.ev.descr[i+len("mutated:"):]
 				switch m {
-				case "t-leader-key", "t-joiner-key", "t-remainer-key", "t-seed":
+				// (a joiner's key IS tied to the signed terms: its signed self-signature must verify under
+				// it, so an altered joiner key falls under the default class below)
+				case "t-leader-key", "t-remainer-key", "t-seed":
 					// keys and the genesis seed are not covered by the signature: a node WITH a group must
 					// refuse such packets by comparing with its group (fixed, F7); a node without any
 					// group has nothing to compare with (C09_fresh_caveat)
@@ -171,6 +173,19 @@ func (w *world) monitor(rep *emit.Report, prop string, hid int, n *node) {
 				default:
 					rep.Fail("C09-altered-packet-accepted",
 						"a captured, genuinely signed packet was accepted after altering "+m+" (signature unchanged)", in())
+				}
+			}
+		}
+		// M13 joiner identities must be validly self-signed: every joining entry a node STORES when it
+		// enters a proposal (by packet or by command) has a self-signature that verifies under the key
+		// stored for that entry (independent IdentityFromProto + ValidSignature on the stored record)
+		if prop == "C09" && (a.cur.state == "Proposed" || a.cur.state == "Proposing") &&
+			(a.cur.state != b.cur.state || a.cur.epoch != b.cur.epoch) {
+			for _, j := range a.raw.cur.Joining {
+				if !joinerValid(j, a.raw.cur.SchemeID) {
+					rep.Fail("C09-joiner-key-not-self-signed-accepted",
+						"the node stored a proposal whose joining entry "+j.GetAddress()+" carries a key under which the entry's self-signature does not verify", in())
+					break
 				}
 			}
 		}
